@@ -77,7 +77,7 @@ fn hash_fields(seed: u64, fs: &[u64]) -> u64 {
     h
 }
 
-pub fn oracle(mode: EqMode, kind: u64, callno: u64, a: (u8, u32), b: (u8, u32)) -> bool {
+pub fn oracle(mode: EqMode, kind: u64, callno: u64, a: (u16, u32), b: (u16, u32)) -> bool {
     let lawful = a.0 == b.0;
     match mode {
         EqMode::Lawful => lawful,
